@@ -184,25 +184,7 @@ fn cmp_header(prefix: &str, want: &MHeader, got: &MHeader) -> Option<Violation> 
 // generation
 // ------------------------------------------------------------------------------------------
 
-/// Every value of a registry in [-70000, 70000], found by scanning `from_i64` once.
-fn registry<T: EnumI64>(cell: &'static std::sync::OnceLock<Vec<i64>>) -> &'static [i64] {
-    cell.get_or_init(|| (-70_000i64..=70_000).filter(|i| T::from_i64(*i).is_some()).collect())
-}
-macro_rules! reg_list {
-    ($name:ident, $t:ty) => {
-        fn $name() -> &'static [i64] {
-            static C: std::sync::OnceLock<Vec<i64>> = std::sync::OnceLock::new();
-            registry::<$t>(&C)
-        }
-    };
-}
-reg_list!(all_algs, iana::Algorithm);
-reg_list!(all_header_params, iana::HeaderParameter);
-reg_list!(all_content_formats, iana::CoapContentFormat);
-reg_list!(all_key_types, iana::KeyType);
-reg_list!(all_key_ops, iana::KeyOperation);
-reg_list!(all_curves, iana::EllipticCurve);
-reg_list!(all_claim_names, iana::CwtClaimName);
+use crate::palette::{all_algs, all_claim_names, all_content_formats, all_curves, all_header_params, all_key_ops, all_key_types};
 
 /// Byte strings that look like real key material: SEC1 elliptic-curve points (uncompressed
 /// 04||X||Y, compressed 02/03||X) for the usual field sizes, DER prefixes, all-zero and all-ff
@@ -241,7 +223,8 @@ fn a_bytes(rng: &mut Rng) -> Arg {
             0 => *rng.pick(&[8usize, 12, 16, 20, 28, 32, 48, 56, 57, 64, 65, 66, 128, 132]),
             _ => rng.log_uniform(1, 5000) as usize,
         };
-        return Arg::B(pat(n, 21));
+        // patterned or random content
+        return Arg::B(if rng.bool() { pat(n, 21) } else { rng.bytes(n) });
     }
     Arg::B(bytes_palette()[pick_bytes_idx(rng)].clone())
 }
